@@ -220,6 +220,26 @@ func runC08(c *ctx) {
 		}
 		c.parseCompare(b.String(), []string{"random-bytes", "alphabet-soup", "token-soup"}[mode])
 	}
+	// 4b. literals with every escape form: every truncation (with and without the closing quote put back) and every
+	//     single-byte deletion — exhaustive, so that an escape cut at any byte is covered
+	lits := []string{`"a\u00e9\ud83d\ude00\n\"q"`, `"\ud83d\ude00"`, `'\udbff\udfff'`, `"\ud800\udc00\ud800\udc00"`, `"\u0041\u00e9"`, `"\\"`, `'a\\'`, `"\"\\\/\b\f\n\r\t"`,
+		`{"k\\": "C:\\tmp\\", "n": 1}`, `["a\\", "b"]`, `"\u12345"`, `'it\'s'`, "`back\\quoted`", `1.5e-3`, `0.5E+25`, `12345678901234567890e-5`, `/a(b|c)*\//i`, `/[/]\//ms`, `/\\/`,
+		`function($a, $b)<n-s?:o>{$a}`, `function($f)<f<n:n>a<s>+>{$f}`, `function($x)<(ns)-:x>{$x}`, `$x := "\ud83d\ude00" & '\ud83d'`}
+	nl := 0
+	for _, lit := range lits {
+		for cut := 0; cut <= len(lit); cut++ {
+			c.parseCompare(lit[:cut], "literal-truncated")
+			if cut > 0 {
+				c.parseCompare(lit[:cut]+lit[:1], "literal-truncated")
+				c.parseCompare(lit[:cut]+lit[len(lit)-1:], "literal-truncated")
+			}
+			if cut < len(lit) {
+				c.parseCompare(lit[:cut]+lit[cut+1:], "literal-byte-deleted")
+			}
+			nl += 4
+		}
+	}
+	c.rep.Exhaustive = append(c.rep.Exhaustive, fmt.Sprintf("%d truncations / closings / single-byte deletions of %d literals with every escape, exponent, regex and signature form", nl, len(lits)))
 	// 5. valid programs and their single-edit mutations
 	g := &pgen{r: r}
 	for i := 0; i < c.scale(1500, 30000) && !c.tooMany(); i++ {
@@ -352,8 +372,9 @@ func printT(t *tree, full bool, ws func() string) string {
 	case "^":
 		return wrap(t.kids[0], precOf(t.kids[0]) < p) + "^(" + wrap(t.kids[1], false) + ")"
 	case "?:":
-		// the condition groups to the left; then-branch is delimited; else-branch groups to the right
-		return wrap(t.kids[0], precOf(t.kids[0]) <= p) + ws() + "?" + ws() + wrap(t.kids[1], false) + ws() + ":" + ws() + wrap(t.kids[2], precOf(t.kids[2]) < p)
+		// the condition groups to the left; then-branch is delimited; the else-branch extends as far to the right as
+		// possible (it is parsed at binding power 0), so it never needs parentheses — not even for := (`a ? b : $v := c`)
+		return wrap(t.kids[0], precOf(t.kids[0]) <= p) + ws() + "?" + ws() + wrap(t.kids[1], false) + ws() + ":" + ws() + wrap(t.kids[2], false)
 	case ":=":
 		return t.kids[0].leaf + ws() + ":=" + ws() + wrap(t.kids[1], precOf(t.kids[1]) < p)
 	default:
@@ -483,7 +504,7 @@ func runC04(c *ctx) {
 				text := printT(t, full == 1, ws)
 				g, _ := c.parseCompare(text, bucket)
 				if g.node == nil {
-					if !strings.HasPrefix(g.outcome, "err ErrPathLiteral") && !strings.HasPrefix(g.outcome, "err ErrIllegal") && !strings.HasPrefix(g.outcome, "err ErrGroup") {
+					if !strings.HasPrefix(g.outcome, "err ErrPathLiteral") && !strings.HasPrefix(g.outcome, "err ErrGroup") {
 						c.disagree(Disagreement{Kind: "precedence-text-rejected", Prog: text, Go: g.outcome, Model: want})
 					}
 					return
